@@ -41,6 +41,8 @@ type WorkerSummary struct {
 	Seeds        []uint64       `json:"seeds,omitempty"` // parallel to Fingerprints
 	LastResults  string         `json:"last_results,omitempty"`
 	LastLog      string         `json:"last_log,omitempty"`
+	Sentinels    []SentinelMismatch `json:"sentinel_mismatches,omitempty"`
+	SentinelsChecked int        `json:"sentinels_checked,omitempty"`
 	Cases        int            `json:"cases,omitempty"`
 	Executions   int            `json:"executions,omitempty"`
 	Observable   int            `json:"observable,omitempty"`
@@ -204,6 +206,13 @@ func TestSim(t *testing.T) {
 		if role == "c20gen" {
 			prop = "C20"
 		}
+		var sentinels []*sentinel
+		if role == "c19" && mode == "interleave" && os.Getenv("SIM_NOPOOL") == "" {
+			var err error
+			if sentinels, err = startSentinels(t, from/1000+from%7); err != nil {
+				harness(err, "sentinels")
+			}
+		}
 		reverse := os.Getenv("SIM_ORDER") == "reverse"
 		for i := from; i < to; i++ {
 			seed := i
@@ -274,6 +283,13 @@ func TestSim(t *testing.T) {
 				rep.Outcomes = nil
 				sum.Violations = append(sum.Violations, FoundViolation{Seed: seed, Scenario: sc, Report: rep})
 			}
+		}
+		if sentinels != nil {
+			bad, err := checkSentinels(t, sentinels)
+			if err != nil {
+				harness(err, "sentinels")
+			}
+			sum.Sentinels, sum.SentinelsChecked = bad, len(sentinels)
 		}
 		finish()
 
